@@ -15,12 +15,22 @@ def ip2n(ip) -> int:
     s = ip.ip if isinstance(ip, IP) else str(ip)
     n = _IPCACHE.get(s)
     if n is None:
-        n = int(ipaddress.IPv4Address(s))
+        try:
+            n = int(ipaddress.IPv4Address(s))
+        except ValueError:
+            # an IPv6 literal is a different address from every IPv4 one, whatever its numeric value (the game compares the
+            # text): numbered above the IPv4 range.  Only the canonical (compressed) spelling is ever generated.
+            v6 = ipaddress.IPv6Address(s)
+            if str(v6) != s:
+                raise
+            n = (1 << 32) + int(v6)
         _IPCACHE[s] = n
     return n
 
 
 def n2ip(n: int) -> IP:
+    if n >= (1 << 32):
+        return IP(str(ipaddress.IPv6Address(n - (1 << 32))))
     return IP(str(ipaddress.IPv4Address(n)))
 
 
